@@ -1,6 +1,7 @@
 package upstream
 
 import (
+	"github.com/oauth2-proxy/oauth2-proxy/v7/pkg/apis/options"
 	"net/http"
 	"net/http/httputil"
 	"net/url"
@@ -134,5 +135,41 @@ func (w *vStatusRW) Write(b []byte) (int, error) { return len(b), nil }
 func (w *vStatusRW) WriteHeader(c int) {
 	if w.status == 0 {
 		w.status = c
+	}
+}
+
+// the reverse proxy as the upstream constructor builds it, for every setting of passHostHeader
+// (unset, true, false): the client's Host header reaches the upstream unless the operator
+// switched that off explicitly, and the request line is pinned in every case
+// verif: unwind=4 strlen=8
+func vh_C17_new_reverse_proxy() {
+	target := &url.URL{Scheme: "http", Host: "backend.example:8080"}
+	up := options.Upstream{ID: "backend", Path: "/", URI: "http://backend.example:8080"}
+	mode := ndChoice("pass-host-header", 3)
+	t, f := true, false
+	switch mode {
+	case 1:
+		up.PassHostHeader = &t
+	case 2:
+		up.PassHostHeader = &f
+	}
+	h := newReverseProxy(target, up, nil)
+	proxy, ok := h.(*httputil.ReverseProxy)
+	verifAssert("C17.newproxy.is-a-reverse-proxy", ok && proxy != nil && proxy.Director != nil)
+	if !ok || proxy == nil || proxy.Director == nil {
+		return
+	}
+	uri := ndString("request-uri")
+	req := &http.Request{Method: "GET", RequestURI: uri, Host: "app.example",
+		URL: &url.URL{Path: ndString("decoded-path"), RawQuery: ndString("raw-query")}, Header: http.Header{}}
+	proxy.Director(req)
+	verifAssert("C17.newproxy.request-uri-verbatim", req.URL.Opaque == uri)
+	verifAssert("C17.newproxy.to-configured-backend", req.URL.Scheme == "http" && req.URL.Host == "backend.example:8080")
+	if mode == 2 {
+		verifReach("host-rewritten")
+		verifAssert("C17.newproxy.host-header-is-backend-when-switched-off", req.Host == "backend.example:8080")
+	} else {
+		verifReach("host-passed")
+		verifAssert("C17.newproxy.client-host-passed-by-default", req.Host == "app.example")
 	}
 }
